@@ -234,18 +234,23 @@ func NewService(nodeID, dir string, clstr Cluster, cfg *Config) (*Service, error
 	}
 	srv.fifo = fifo
 
-	// Whatever is the first key in the FIFO we assume has not been sent. This ensures we meet the
-	// at least-once guarantee. So set the highwater mark to one before.
+	// Whatever is the first item in the FIFO we assume has not been sent. This ensures we meet the
+	// at least-once guarantee. An item holds a batch of events and is keyed by the highest index in
+	// the batch, so set the highwater mark to one before the lowest index in that batch.
 	//
 	// In other words we assume that anything sitting in the queue has not been sent to the webhook.
 	// If that is not the case then an HWM update from other nodes in the cluster may update it
 	// (and prune the FIFO).
-	higHWM, err := fifo.FirstKey()
+	first, err := fifo.First()
 	if err != nil {
-		return nil, fmt.Errorf("failed to read first key from FIFO: %w", err)
+		return nil, fmt.Errorf("failed to read first item from FIFO: %w", err)
 	}
-	if higHWM > 0 {
-		higHWM -= 1
+	higHWM := uint64(0)
+	if first != nil {
+		higHWM = lowestIndex(first)
+		if higHWM > 0 {
+			higHWM -= 1
+		}
 	}
 	srv.highWatermark.Store(higHWM)
 	vhook.Trace(nodeID, "cdc.open", "hwm", higHWM)
@@ -693,6 +698,26 @@ func (s *Service) followerLoop() (chan struct{}, chan struct{}) {
 	}()
 
 	return stop, done
+}
+
+// lowestIndex returns the lowest index of the events batched in the given FIFO item. If the
+// item cannot be read zero is returned, which claims nothing about what has been sent.
+func lowestIndex(ev *Event) uint64 {
+	b, err := flate.Decompress(ev.Data)
+	if err != nil {
+		return 0
+	}
+	var env cdcjson.CDCMessagesEnvelope
+	if err := cdcjson.UnmarshalFromEnvelopeJSON(b, &env); err != nil || len(env.Payload) == 0 {
+		return 0
+	}
+	low := ev.Index
+	for _, m := range env.Payload {
+		if m.Index < low {
+			low = m.Index
+		}
+	}
+	return low
 }
 
 func fileExists(path string) bool {
